@@ -344,6 +344,11 @@ Loop:
 				case ActionSkip:
 					if !isLeaving {
 						_, path = pop(path)
+						// skipping the root leaves nothing to traverse (the
+						// loop guard at the bottom is not reached by continue)
+						if sstack == nil {
+							break Loop
+						}
 						continue
 					}
 				case ActionUpdate:
